@@ -194,6 +194,16 @@ def c19(ctx):
     rep["evaluations"] += frep["evaluations"]
     rep["distinct_nontrivial"] += frep["distinct_nontrivial"]
     rep["drift"] += frep["drift"]
+    # bodies of 70 000 bytes (stored): the next local header is far behind the current one
+    bz = ctx.tlc_expect_ok("MC_Zip.tla", "MC_Zip_big.cfg", timeout=7000, xmx="24g", tag="MC_Zip_big")
+    rpb = os.path.join(ctx.scratch, "zipbig.json")
+    ctx.vdrive(["zipvec", "-in", bz["out"], "-out", rpb, "-seed", ctx.seed + 5, "-noodf"], timeout=7000)
+    os.remove(bz["out"])
+    brep = ctx.report(rpb)
+    rep["violations"] += brep["violations"]
+    rep["evaluations"] += brep["evaluations"]
+    rep["distinct_nontrivial"] += brep["distinct_nontrivial"]
+    rep["drift"] += brep["drift"]
     # longer archives by simulation (the "first six entries" boundary)
     srep = None
     for me in (6, 7, 8):
@@ -220,7 +230,7 @@ def c19(ctx):
     cov = dict(
         evaluations=rep["evaluations"] + srep["evaluations"],
         distinct_nontrivial=rep["distinct_nontrivial"] + srep["distinct_nontrivial"],
-        rule="model: ZipWalk.tla lays out archives by arithmetic (30-byte local headers, names, extra fields, bodies, data descriptors, central directory) and runs zipContains as cursor arithmetic (jump csize+49, next local header at or after the cursor, four hops); TLC checks for every archive of <= 3 entries over the name classes (OOXML bookkeeping parts, word/ xl/ ppt/, MANIFEST.MF, APK markers, near-misses, unrelated names of 1-200 bytes) x body sizes x with / without data descriptors that the model's class is one the statement allows and that every slice is in bounds; archives of up to 8 entries by simulation. every archive is built with archive/zip (stored or deflated with the exact compressed size, CreateHeader or CreateRaw), read back with archive/zip (oracle for entry names), and run through Detect at limit 0: class must be allowed, parent must be application/zip; plus archives whose first entry is the stored `mimetype` file for every ODF / EPUB type. non-trivial = archives for which the statement allows exactly one non-zip class",
+        rule="model: ZipWalk.tla lays out archives by arithmetic (30-byte local headers, names, extra fields, bodies, data descriptors, central directory) and runs zipContains as cursor arithmetic (jump csize+49, next local header at or after the cursor, four hops); TLC checks for every archive of <= 3 entries over the name classes (OOXML bookkeeping parts, word/ xl/ ppt/, MANIFEST.MF, APK markers, near-misses, unrelated names of 1-200 bytes) x body sizes (0 .. 300 bytes, and 70 000 bytes in a dedicated run) x with / without data descriptors that the model's class is one the statement allows and that every slice is in bounds; archives of up to 8 entries by simulation. every archive is built with archive/zip (stored or deflated with the exact compressed size, CreateHeader or CreateRaw), read back with archive/zip (oracle for entry names), and run through Detect at limit 0: class must be allowed, parent must be application/zip; plus archives whose first entry is the stored `mimetype` file for every ODF / EPUB type. non-trivial = archives for which the statement allows exactly one non-zip class",
         exhaustive=True,
         drift=dict(exhaustive=rep["drift"], simulated=srep["drift"], samples=(rep.get("drift_samples", []) + srep.get("drift_samples", []))[:3]),
         classes=rep["extra"]["classes"],
